@@ -6,23 +6,23 @@ H = []
 
 QUICK = {
     "C01": ["fub_poll_c2", "fub_poll_c2_inflight", "fub_poll_c2_handles", "fub_wake_c2", "fub_wake_c2_inflight", "fub_push_c2", "fub_poll_budget", "fub_poll_budget_many", "mb_poll_c2", "fu_cur_12_c1", "wl_fifo_c2"],
-    "C02": ["fub_poll_c2", "fub_push_c2", "fu_poll_2", "fu_push_12", "fob_poll_c2", "fu_cur_12_c1", "fu_cur_12_c0", "sm_step_c3"],
-    "C04": ["fob_poll_c2", "fob_poll_c2_p0", "fob_push_c2", "fo_observe_c2", "ad_bo_n2_p0", "ja_poll_n2", "ctor_fub_from_iter"],
-    "C05": ["fub_poll_c2", "mb_poll_c2", "ja_poll_n2", "fub_poll_c2_handles"],
+    "C02": ["fub_poll_c2", "fub_stale_many", "fub_push_c2", "fu_poll_2", "fu_push_12", "fob_poll_c2", "fu_cur_12_c1", "fu_cur_12_c0", "sm_step_c3"],
+    "C04": ["fob_poll_c2", "fob_poll_c2_p0", "fob_poll_c1_p2", "fob_push_c2", "fo_observe_c2", "ad_bo_n2_p0", "ja_poll_n2", "ctor_fub_from_iter"],
+    "C05": ["fub_poll_c2", "mb_poll_c2", "mb_end_many_6", "ja_poll_n2", "fub_poll_c2_handles"],
     "C06": ["fub_drop_c2", "ja_poll_n2", "tja_poll_n2", "mb_poll_c2", "fob_drop_c2"],
     "C07": ["ja_poll_n2", "tja_poll_n2"],
     "C08": ["fub_poll_c2", "fu_poll_2", "fu_push_12", "fu_push_2", "fu_cur_12_c0", "mu_push_12"],
     "C09": ["ad_bu_n2", "ad_bu_n3", "ad_tbu_n2", "ad_fe_n1", "ad_bo_n2_p0"],
     "C10": ["ad_bu_n2", "ad_tbu_n2", "ad_fe_n1", "ad_fe_n0", "ad_bo_n2_p0", "ad_bo_n2"],
-    "C11": ["mb_poll_c2", "mu_poll_12_c0", "mu_poll_12_c1", "mu_push_12", "ctor_mb_from_iter"],
-    "C12": ["fub_poll_c2", "fub_wake_c2", "fub_push_c2", "mb_poll_c2", "fub_poll_budget_61"],
+    "C11": ["mb_poll_c2", "mb_end_many_6", "mu_poll_12_c0", "mu_poll_12_c1", "mu_push_12", "ctor_mb_from_iter"],
+    "C12": ["fub_poll_c2", "fub_wake_c2", "fub_push_c2", "mb_poll_c2", "fu_poll_2", "fub_poll_budget_61"],
     "C13": ["fub_poll_c2", "fub_poll_budget", "fub_poll_budget_61", "fub_poll_budget_many", "mu_poll_12_c0", "mu_poll_12_c1", "fu_poll_2"],
-    "C14": ["fub_poll_c2_quiet", "fub_wake_c2", "fub_push_c2", "fub_drop_c2", "fu_cur_12_c0", "fub_poll_budget_61"],
-    "C15": ["fub_poll_c2", "fub_push_c2", "fub_push_c0", "fob_push_c2", "fob_new", "fo_new", "fu_push_12", "sm_step_c3", "ctor_fub_from_iter", "ctor_fu_0", "ctor_fu_2"],
+    "C14": ["ad_bu_n2", "ad_fe_n1", "fub_poll_c2_quiet", "fub_wake_c2", "fub_push_c2", "fub_drop_c2", "fu_cur_12_c0", "fub_poll_budget_61"],
+    "C15": ["fub_poll_c2", "fub_push_c2", "fub_push_c0", "fob_push_c2", "fob_new", "fo_new", "fu_push_12", "fu_cur_12_c0", "sm_step_c3", "ctor_fub_from_iter", "ctor_fu_0", "ctor_fu_2"],
     "C16": ["ad_bo_n2", "ad_tbo_n2"],
-    "C17": ["fub_poll_c2", "fob_poll_c2", "fo_observe_c2", "ad_bu_n2", "ad_tbu_n2", "ad_bo_n2"],
+    "C17": ["fub_poll_c2", "fu_poll_2", "fob_poll_c2", "fo_observe_c2", "ad_bu_n2", "ad_tbu_n2", "ad_bo_n2"],
     "C03": ["wl_shape0_c2", "wl_shape1_c2", "wl_shape2_c2", "wl_shape3_c2", "wl_fifo_c2", "wl_layout"],
-    "C18": ["fub_poll_c2", "fub_push_c2", "fub_wake_c2", "ja_poll_n2", "tja_poll_n2", "fu_push_12", "fu_poll_2", "fu_rot_124_c0", "fu_rot_124_c1", "ad_bu_n2", "mu_push_12"],
+    "C18": ["fub_poll_c2", "fub_push_c2", "fub_wake_c2", "ja_poll_n2", "tja_poll_n2", "fu_push_12", "fu_poll_2", "fu_rot_124_c0", "fu_rot_124_c1", "ad_bu_n2", "mu_push_12", "mu_rot_124_c0"],
 }
 
 def h(name, props, tiers, unwind=6, unwindset=None, covers=(), timeout=900, mem=8, layer="model",
@@ -70,6 +70,9 @@ h("fub_poll_budget_3", ["C13", "C14", "C12"], T, unwind=6, unwindset={POLL: 63},
 h("fub_poll_budget_many", ["C13", "C01"], QT, unwind=66, timeout=1200, covers=["cover:budget_exhausted"],
   what="FuturesUnorderedBounded<Idle> capacity 62 with all 62 children held and queued (none wakes itself): the call stops after 61 child polls and must wake its task, because the child left in the queue has already been notified",
   bounds="capacity 62, fully concrete state; every loop unwound 66")
+h("fub_stale_many", ["C02", "C05", "C14", "C15"], QT, unwind=66, timeout=1200, covers=["cover:stale_many"],
+  what="FuturesUnorderedBounded<Idle> capacity 62, EMPTY, with 62 stale ready-queue entries (wakers of finished children invoked after completion; more than the per-poll budget): the poll answers Ready(None) at once, polls nothing and wakes nobody",
+  bounds="capacity 62, fully concrete state (registration flag and task symbolic); every loop unwound 66")
 W_PUSH = "FuturesUnorderedBounded<Fut>: ONE try_push from an arbitrary INV pre-state (full or not, stale queue entry on the free slot or not)"
 h("fub_push_c2", ["C15", "C02", "C01", "C12", "C14", "C17", "C18"], QT, covers=["cover:push_ok", "cover:push_refused", "cover:push_reuses_stale_entry"],
   what=W_PUSH, bounds="capacity 2")
@@ -116,7 +119,7 @@ h("fu_poll_12_c2", FU_POLL, T, timeout=1800, mem=16, covers=["cover:yield"], wha
 h("fu_poll_12_quiet", ["C14"], T, timeout=1800, mem=16, covers=["cover:pending_two_groups"], what=W_FU + "; quiet environment", bounds="capacities (1,2); cursor 0")
 W_CUR = W_FU + "; only the listed groups have queued children (the others answer Pending at once): cursor / group-list logic at low cost"
 h("fu_cur_12_c1", ["C01", "C02", "C13", "C14", "C18", "C08"], QT, timeout=1500, covers=["cover:yield", "cover:pending_two_groups"], what=W_CUR, bounds="capacities (1,2); cursor 1; <=1 queued child per group; no self-wake")
-h("fu_cur_12_c0", ["C01", "C02", "C13", "C14", "C18", "C08"], QT, timeout=1500, covers=["cover:yield", "cover:pending_two_groups", "cover:none_two_groups"], what=W_CUR, bounds="capacities (1,2); cursor 0; <=1 queued child per group; no self-wake")
+h("fu_cur_12_c0", ["C01", "C02", "C13", "C14", "C18", "C08", "C15"], QT, timeout=1500, covers=["cover:yield", "cover:pending_two_groups", "cover:none_two_groups"], what=W_CUR, bounds="capacities (1,2); cursor 0; <=1 queued child per group; no self-wake")
 W_ROT = ("FuturesUnordered<Fut> with THREE groups (1,2,4) in concrete inner states (one drained group at the cursor, one sleeping child in each other group): ONE poll_next; "
          "the drained group is discarded, the others keep their order by capacity (the largest stays last and is never discarded), rem / cursor stay consistent")
 h("fu_rot_124_c0", ["C18", "C02", "C13", "C15"], QT, unwind=7, covers=["cover:group_discarded"], what=W_ROT, bounds="groups (1,2,4); cursor 0 = the drained smallest group")
@@ -134,6 +137,8 @@ h("fob_poll_c2", ["C04", "C02", "C05", "C15", "C17"], QT, unwindset=FOB_US, time
   what=W_FOB, bounds="capacity 2, exactly 1 parked output; no self-wake; outer loop unwound 3, poll loop 4, heap loops 3")
 h("fob_poll_c2_p0", ["C04", "C02", "C15", "C17"], QT, unwindset=FOB_US, timeout=1200,
   covers=["cover:yield_running", "cover:none", "cover:pending_parked_more"], what=W_FOB, bounds="capacity 2, no parked output")
+h("fob_poll_c1_p2", ["C04", "C02"], QT, unwindset={"FuturesOrderedBounded.*poll_next#2": 3, POLL: 3, "binary_heap": 4}, timeout=1200,
+  covers=["cover:yield_parked", "cover:pending_rebased"], what=W_FOB, bounds="capacity 1, exactly 2 parked outputs (a heap whose order is decided by OrderWrapper::cmp); no self-wake")
 h("fob_poll_c2_p2", ["C04", "C02"], T, unwindset={"FuturesOrderedBounded.*poll_next#2": 3, POLL: 5, "binary_heap": 4}, timeout=2400, mem=20,
   covers=["cover:yield_parked"], what=W_FOB, bounds="capacity 2, 2 parked outputs, <=1 self-wake")
 h("fo_observe_c2", ["C04", "C15", "C17", "C12"], QT, covers=["cover:push_front", "cover:push_back"],
@@ -164,12 +169,20 @@ h("mu_push_12", ["C11", "C18", "C08", "C01", "C12"], QT, covers=["cover:push_new
   what="MergeUnbounded<Src>: ONE push (a source added while the merge is being consumed) from an arbitrary two-group pre-state: the last group takes it or a group of twice the capacity is appended; no source is polled, moved or dropped; allocations only for a new group",
   bounds="groups (1,2)")
 h("mu_poll_12_c1", ["C13", "C11", "C01"], QT, unwindset=MB_US, timeout=1500, covers=["cover:item_from_other", "cover:pending"], what=W_MU, bounds="groups (1,2); cursor 1")
+h("mb_end_many_6", ["C05", "C11", "C12", "C06", "C14"], QT, unwind=10, timeout=1200, covers=["cover:all_ended", "cover:one_left"],
+  what="MergeBounded<EndSrc> with 6 queued sources of which an arbitrary subset answers None in ONE poll (the others Pending): every source polled exactly once, every ended source dropped by this call and never polled again, None iff all ended",
+  bounds="6 sources, all queued, one poll; each source symbolic None/Pending; loops unwound 10")
+W_MUROT = ("MergeUnbounded<EndSrc> with three groups (capacities 1,2,4) of one source each; a fixed subset of the sources is queued and a fixed subset answers None "
+           "(concrete per harness: a symbolic subset exceeds 20 GB), so given groups run empty in ONE poll: remaining groups stay in increasing capacity order (the largest "
+           "allocation stays last, where push and the keep-the-last-group rule expect it), exactly the emptied non-last groups are gone, no allocation, None iff all ended")
+h("mu_rot_124_c0", ["C18", "C11", "C13"], QT, unwind=9, unwindset=MB_US, timeout=1500, covers=["cover:one_group_removed"], what=W_MUROT, bounds="groups (1,2,4), one source each; cursor 0; source 0 queued and ending")
+h("mu_rot_124_c1", ["C18", "C11", "C13"], QT, unwind=9, unwindset=MB_US, timeout=1500, covers=["cover:two_groups_removed"], what=W_MUROT, bounds="groups (1,2,4), one source each; cursor 1; all queued, sources 0 and 1 ending")
 
 # ---------------------------------------------------------------- adapters
 AD_US = {POLL: 5}
 W_AD = ("ONE poll from an arbitrary pre-state: upstream present (arbitrary remaining items, honest size_hint) or gone; "
         "in-flight collection in an arbitrary INV state; scripted upstream: item / Pending / end (/ error)")
-h("ad_bu_n2", ["C09", "C10", "C17", "C01", "C02", "C18"], QT, unwindset=AD_US, covers=["cover:item", "cover:pending", "cover:end"],
+h("ad_bu_n2", ["C09", "C10", "C17", "C01", "C02", "C18", "C14"], QT, unwindset=AD_US, covers=["cover:item", "cover:pending", "cover:end"],
   what="buffered_unordered(2): " + W_AD, bounds="n=2; <=2 upstream items remaining")
 h("ad_bu_n3", ["C09", "C10", "C17"], QT, unwind=7, unwindset={POLL: 6}, timeout=1500, mem=12, covers=["cover:item", "cover:pending", "cover:end"],
   what="buffered_unordered(3): " + W_AD, bounds="n=3; <=3 upstream items remaining")
@@ -179,21 +192,21 @@ h("ad_tbu_n1", ["C09", "C10", "C17"], T, unwindset={"poll_inner_no_remove#0": 5}
   what="try_buffered_unordered(1): " + W_AD, bounds="n=1")
 h("ad_bu_n1", ["C09", "C10", "C17"], T, unwindset=AD_US, covers=["cover:item", "cover:pending", "cover:end"],
   what="buffered_unordered(1): " + W_AD, bounds="n=1; <=1 self-wake")
-h("ad_tbu_n2", ["C09", "C10", "C17", "C18"], QT, unwindset=AD_US, covers=["cover:item", "cover:pending", "cover:end", "cover:upstream_err_keeps_inflight"],
+h("ad_tbu_n2", ["C09", "C10", "C17", "C18", "C14"], QT, unwindset=AD_US, covers=["cover:item", "cover:pending", "cover:end", "cover:upstream_err_keeps_inflight"],
   what="try_buffered_unordered(2): " + W_AD, bounds="n=2")
 FE_US = {POLL: 5, "ForEachConcurrent.*poll#0": 5}
-h("ad_fe_n1", ["C09", "C10", "C05", "C18"], QT, unwindset=FE_US, timeout=1200, covers=["cover:complete", "cover:pending"],
+h("ad_fe_n1", ["C09", "C10", "C05", "C18", "C14"], QT, unwindset=FE_US, timeout=1200, covers=["cover:complete", "cover:pending"],
   what="for_each_concurrent(1, f): " + W_AD, bounds="n=1; <=1 upstream item remaining")
-h("ad_fe_n2", ["C09", "C10"], T, unwindset={POLL: 5, "ForEachConcurrent.*poll#0": 7}, timeout=2400, mem=20, covers=["cover:complete", "cover:pending"],
+h("ad_fe_n2", ["C09", "C10", "C14"], T, unwindset={POLL: 5, "ForEachConcurrent.*poll#0": 7}, timeout=2400, mem=20, covers=["cover:complete", "cover:pending"],
   what="for_each_concurrent(2, f): " + W_AD, bounds="n=2; <=1 upstream item remaining")
 h("ad_fe_n0", ["C10"], QT, unwindset=FE_US, covers=[],
   what="for_each_concurrent(0, f) - documented as 'no limit': " + W_AD, bounds="n=0")
 BO_US = {POLL: 5, "FuturesOrderedBounded.*poll_next#2": 3, "binary_heap": 3}
-h("ad_bo_n2", ["C16", "C09", "C10", "C17", "C04"], QT, unwindset=BO_US, timeout=1200, covers=["cover:item", "cover:pending"],
+h("ad_bo_n2", ["C16", "C09", "C10", "C17", "C04", "C14"], QT, unwindset=BO_US, timeout=1200, covers=["cover:item", "cover:pending"],
   what="buffered_ordered(2): " + W_AD + "; 1 parked output in the pre-state (head of line stalled)", bounds="n=2; pre-state len <= n")
 h("ad_bo_n2_p0", ["C16", "C09", "C10", "C17", "C04"], QT, unwindset=BO_US, timeout=1200, covers=["cover:item", "cover:pending", "cover:end"],
   what="buffered_ordered(2): " + W_AD + "; nothing parked in the pre-state", bounds="n=2")
-h("ad_tbo_n2", ["C16", "C09", "C10", "C17"], QT, unwindset=BO_US, timeout=1200, covers=["cover:item", "cover:pending"],
+h("ad_tbo_n2", ["C16", "C09", "C10", "C17", "C14"], QT, unwindset=BO_US, timeout=1200, covers=["cover:item", "cover:pending"],
   what="try_buffered_ordered(2): " + W_AD + "; 1 parked output", bounds="n=2")
 
 # ---------------------------------------------------------------- join_all
